@@ -19,6 +19,9 @@ func checkC08(c *Ctx, r *Report) {
 	defer checkCommandExitStatus(c, r, "C08.a")
 	defer func() { ruleSkipInventory(c, r, "C08.d", loadSkipTable(c.VerifDir), 1, "generator/swagen") }()
 	defer checkOrderedJSONIsEncoderOutput(c, r, "C08.b")
+	// enum values, formats and bounds written for ONE usage must not land in the shared component
+	// (the component would then carry values of another type than its own): no write through a $ref
+	defer checkAliasWritesAs(c, r, "C08.e")
 	defer func() { ruleRegexInventory(c, r, "C08.d", "core/validators", "common") }()
 	w := c.W
 	r.NotDecided = append(r.NotDecided,
